@@ -19,10 +19,7 @@ NOTES = ("Every check is solver-based (DESIGN.md): Engine K = Kani/CBMC over the
          "counterexample that did not reproduce natively); it is never reported as success or as a violation. Known findings: known_findings.txt.")
 
 NOT_APPLICABLE = {
-    "C16": "not built yet",
-    "C17": "not built yet",
     "C19": "harnesses under construction (not yet registered)",
-    "C20": "harnesses under construction (not yet registered)",
 }
 
 S_TECH = ("bounded symbolic execution of the real generic palette code by instantiation with a term-building number type "
@@ -138,6 +135,23 @@ PROPS = {
         "symmetry, non-negativity, zero for identical colours, contrast range and threshold predicates.",
         "Trusted: z3; the CIEDE2000 transcription (symx/src/reference/ciede2000.rs). The full CIEDE2000 differential and symmetry are "
         "thorough-tier and claimed only when discharged (DESIGN.md section 9)."),
+    "C16": sprop(
+        "Symbolic execution of the real CAM16 code with concrete viewing conditions (the real prepare_parameters runs in f64) and a "
+        "symbolic colour: the CAM16-UCS formulas and their inverses (exp/ln axioms), Jab <-> Jmh (trigonometric axioms), each of the six "
+        "partial types = the full model's attributes (syntactic identity), black <-> black, adopted white has J = 100; the XYZ -> CAM16 "
+        "-> XYZ round trips through the non-linear compression are thorough-tier and claimed only when discharged.",
+        "Trusted: z3. Viewing conditions: D65 with L_A in {4, 40, 318}, D50 with L_A = 64, Y_b = 20, average surround; others are outside "
+        "the claim. The forward model is not compared against an independent transcription of Li et al. (shared pow symbols would make "
+        "that comparison syntactic only)."),
+    "C17": sprop(
+        "What can be decided of this property: that the mask-generic code path (what every SIMD lane computes: all lazy_select branches "
+        "evaluated and blended by masks, the separate SIMD branches of RGB->HSV/HSL) equals the scalar code path (what f32/f64 compute). "
+        "The real functions are executed with SymM (one DAG) and with SymF (one run per decision vector) and z3 searches the whole input "
+        "box for an input where an output differs by more than the tolerance.",
+        "Trusted: z3; SymM's trait impls model palette's glue for the `wide` crate types (is_valid_divisor = |x| >= MIN_POSITIVE, clamp = "
+        "max then min ...). The arithmetic of the wide crate itself, palette's num/wide.rs, bool_mask/wide.rs and the array<->SIMD "
+        "packing in macros/simd.rs cannot be executed symbolically (concrete SIMD types; Kani rejects float SIMD intrinsics): that half "
+        "of C17 is not applicable, a mutation inside num/wide.rs is not detected. f32-vs-f64 agreement is not checked."),
     "C14": sprop(
         "Symbolic execution of the real RGB<->XYZ, XYZ->Lab/Luv/Oklab and chromatic-adaptation code for every RGB standard / white point "
         "pair; z3 decides, for ALL greys / colours in the stated boxes, that white maps to the white point, neutrals stay neutral, the "
